@@ -201,7 +201,7 @@ impl Enumerate for TimesIterator {
   }
 
   fn size_hint(&self) -> Option<usize> {
-    Some((self.max + 1.0) as usize)
+    Some((self.max - self.current) as usize)
   }
 
   fn as_debug(&self) -> &dyn DebugHeap {
